@@ -75,3 +75,44 @@ func (w *wrapper) SphereCollisionGood(c model3d.Coord3D, r float64) bool {
 func newWrapper(t model3d.DistTransform, c model3d.Collider) *wrapper {
 	return &wrapper{c: c, t: t, inv: t.Inverse().(model3d.DistTransform)}
 }
+
+type contouring struct {
+	delta        float64
+	repair, clip bool
+}
+
+func newContouring(delta float64, repair, clip bool) *contouring {
+	return &contouring{delta: delta, repair: repair, clip: clip}
+}
+
+// want:ARGSWAP the two flags are passed in each other's position.
+func ContourInteriorBad(delta float64, repair, clip bool) *contouring {
+	return newContouring(delta, clip, repair)
+}
+
+// clean:ARGSWAP
+func ContourInterior(delta float64, repair, clip bool) *contouring {
+	return newContouring(delta, repair, clip)
+}
+
+func signedKernel(t *model3d.Triangle, r *model3d.Ray) (float64, bool) {
+	return r.Origin.Dot(t.Normal()), true
+}
+
+// want:SIGNED the kernel's parameter may be negative.
+func FirstHitBad(t *model3d.Triangle, r *model3d.Ray) (model3d.RayCollision, bool) {
+	s, ok := signedKernel(t, r)
+	if !ok {
+		return model3d.RayCollision{}, false
+	}
+	return model3d.RayCollision{Scale: s}, true
+}
+
+// clean:SIGNED
+func FirstHit(t *model3d.Triangle, r *model3d.Ray) (model3d.RayCollision, bool) {
+	s, ok := signedKernel(t, r)
+	if !ok || s < 0 {
+		return model3d.RayCollision{}, false
+	}
+	return model3d.RayCollision{Scale: s}, true
+}
